@@ -135,7 +135,9 @@ impl SimpleMdnsResponder {
                                 scope.socket_address()
                             };
 
-                            sender_socket.send_to(&reply, reply_addr)?;
+                            if let Err(err) = sender_socket.send_to(&reply, reply_addr) {
+                                log::error!("Failed to send reply {err}");
+                            }
                         }
                         None => {
                             continue;
